@@ -184,6 +184,7 @@ def collect(F, fn_path, tag="", inline_pred=None, facts_hook=None, loop_k=1):
                 if facts_hook:
                     fs = fs + facts_hook(F, PrefixPath(p, cur["idx"], snap if snap is not None else {}), lin, expand)
                 cur["facts"] = fs
+                cur["lin"] = lin
             return cur["facts"]
         for idx, e in enumerate(p.effects):
             cur["idx"] = idx
@@ -236,7 +237,7 @@ def collect(F, fn_path, tag="", inline_pred=None, facts_hook=None, loop_k=1):
                     b = lin.len_of(e[3][1]) if len(e[3]) > 1 else None
                     ok = False
                     if a and b:
-                        ok = linear.entails(get_facts(), linear.lin_add(a, b, -1)) and linear.entails(get_facts(), linear.lin_add(b, a, -1))
+                        ok = ent(get_facts(), linear.lin_add(a, b, -1), lin) and ent(get_facts(), linear.lin_add(b, a, -1), lin)
                     note("copy", "copy_from_slice", e[5], "discharged" if ok else "open", "len(dst) == len(src) " + ("proved" if ok else "not proved"), p)
                 elif callee == "mqtt::common::arc_payload::ArcPayload::new" and len(e[3]) >= 3:
                     # precondition (debug_assert in the callee): start + length <= data.len()
@@ -262,13 +263,18 @@ def short_fn(p):
     return p.replace("mqtt::packet::", "").replace("mqtt::connection::core::GenericConnection::<Role, PacketIdType>::", "GC::").replace("mqtt::", "")
 
 
+def ent(facts, q, lin):
+    """Entailment with the definitional facts of min / saturating_sub results added."""
+    return linear.entails(facts + linear.aux_facts(lin, facts + [q]), q)
+
+
 def discharge_assert(kind, op, ops, tys, lin, iv, get_facts):
     if kind == "bounds" and len(ops) == 2:
         ln, ix = ops
         q = linear.lin_add(linear.lin_add(lin.of_value(ix), lin.of_value(ln), -1), linear.const(1))   # ix + 1 - len <= 0
         if ln[0] == "sym" and ln[1][0] == "len":
             q = linear.lin_add(linear.lin_add(lin.of_value(ix), lin.len_of(ln[1][1]), -1), linear.const(1))
-        if linear.entails(get_facts(), q):
+        if ent(get_facts(), q, lin):
             return True, "D2 index < len from path facts"
         return False, "index < len not proved"
     if kind == "overflow" and len(ops) == 2:
@@ -282,7 +288,7 @@ def discharge_assert(kind, op, ops, tys, lin, iv, get_facts):
             return True, "D3 interval: %s * %s <= %s::MAX" % (a[1], b[1], ty)
         if op == "Sub":
             q = linear.lin_add(lin.of_value(ops[1]), lin.of_value(ops[0]), -1)      # b - a <= 0
-            if linear.entails(get_facts(), q):
+            if ent(get_facts(), q, lin):
                 return True, "D2 a >= b from path facts"
             return False, "a >= b not proved for subtraction"
         if op in ("Shl", "Shr") and b[0] == b[1] and b[1] is not None and hi is not None:
@@ -335,21 +341,21 @@ def discharge_index(e, lin, expand, get_facts):
     f = get_facts()
     if rng[0] == "agg" and rng[2] == "RangeFrom":
         s = lin.of_value(rng[3][0])
-        ok = linear.entails(f, linear.lin_add(s, ln, -1))
+        ok = ent(f, linear.lin_add(s, ln, -1), lin)
         return ok, "start <= len " + ("proved (D2)" if ok else "not proved")
     if rng[0] == "agg" and rng[2] == "Range":
         s = lin.of_value(rng[3][0])
         en = lin.of_value(rng[3][1])
-        ok1 = linear.entails(f, linear.lin_add(s, en, -1))
-        ok2 = linear.entails(f, linear.lin_add(en, ln, -1))
+        ok1 = ent(f, linear.lin_add(s, en, -1), lin)
+        ok2 = ent(f, linear.lin_add(en, ln, -1), lin)
         return ok1 and ok2, "start <= end %s, end <= len %s" % ("ok" if ok1 else "NOT proved", "ok" if ok2 else "NOT proved")
     if rng[0] == "agg" and rng[2] == "RangeTo":
         en = lin.of_value(rng[3][0])
-        ok = linear.entails(f, linear.lin_add(en, ln, -1))
+        ok = ent(f, linear.lin_add(en, ln, -1), lin)
         return ok, "end <= len " + ("proved (D2)" if ok else "not proved")
     if rng[0] == "agg" and rng[2] == "RangeFull":
         return True, "full range"
     # plain usize index
     ix = lin.of_value(rng)
-    ok = linear.entails(f, linear.lin_add(linear.lin_add(ix, ln, -1), linear.const(1)))
+    ok = ent(f, linear.lin_add(linear.lin_add(ix, ln, -1), linear.const(1)), lin)
     return ok, "index < len " + ("proved (D2)" if ok else "not proved")
